@@ -1467,13 +1467,15 @@ class UWG(object):
                     count += 1
                     bld = []
                     nextrow = [c.replace(' ', '').lower()
-                               for c in param_data[count]]
+                               for c in param_data[count]] \
+                        if count < len(param_data) else []
                     while len(nextrow) > 0 and nextrow[0] in REF_BLDTYPE_SET:
                         bldtype, builtera, frac = nextrow[0], nextrow[1], nextrow[2]
                         bld.append((bldtype, builtera, float(frac)))
                         count += 1
                         nextrow = [c.replace(' ', '').lower()
-                                   for c in param_data[count]]
+                                   for c in param_data[count]] \
+                            if count < len(param_data) else []
                     self._init_param_dict[row[0]] = bld
                 elif row[0] == 'zone':
                     self._init_param_dict[row[0]] = row[1]
